@@ -33,6 +33,10 @@ type Roles struct {
 	Handle      *ssa.Function   // Service.HandleMessage (exported API)
 	WFuncs      []*ssa.Function // functions in package varlink that Write on a Call's connection
 	WSites      []CallSite
+
+	dispEntry     *ssa.Function
+	dispEntryDone bool
+	reachW        map[*ssa.Function]bool
 }
 
 func isNamed(t types.Type, pkg, name string) bool {
@@ -304,4 +308,21 @@ func (ro *Roles) servingSide() map[*ssa.Function]bool {
 		out[v] = true
 	}
 	return out
+}
+
+// keepsWriting: f writes on a Call's connection or reaches a function that does (the reply path). Such functions are not
+// inlined into the dispatch entry's view: replies are counted as calls of the reply primitives.
+func (ro *Roles) keepsWriting(f *ssa.Function) bool {
+	if ro.reachW == nil {
+		ro.reachW = map[*ssa.Function]bool{}
+		w := fnSet(ro.WFuncs)
+		for _, g := range ro.p.Funcs {
+			for h := range ro.CG.Reach([]*ssa.Function{g}, false) {
+				if w[h] {
+					ro.reachW[g] = true
+				}
+			}
+		}
+	}
+	return ro.reachW[f]
 }
